@@ -376,7 +376,7 @@ def run(chk, F, tier):
         T = Terms(F, inst)
         paths = return_paths(inst)
         if paths is None:
-            chk.unproved_note("get<%s>: too many paths to enumerate" % w)
+            chk.unproved_note("get-children", "get<%s>" % w, "too many paths to enumerate")
             continue
         for path in paths:
             subs = set()
@@ -433,7 +433,7 @@ def run(chk, F, tier):
         errs = {b for b, _ in err_blocks(inst)}
         paths = return_paths(inst)
         if paths is None:
-            chk.unproved_note("update<%s>: too many paths to enumerate" % w)
+            chk.unproved_note("update-noop", "update<%s>" % w, "too many paths to enumerate")
             continue
         for path in paths:
             ps = set(path)
